@@ -155,7 +155,18 @@ def _get_resp_headers(sock, success_statuses: tuple = SUCCESS_STATUSES) -> tuple
         if body_len > 0:
             # read the body of the HTTP error message response and include it in the exception;
             # the declared length is the peer's claim, never ask for more than one buffer
-            response_body = sock.recv(min(body_len, _MAX_ERROR_BODY))
+            # (it may arrive in several segments)
+            wanted = min(body_len, _MAX_ERROR_BODY)
+            response_body = b""
+            while len(response_body) < wanted:
+                try:
+                    chunk = sock.recv(wanted - len(response_body))
+                except OSError:
+                    # the status is what matters: report it with what has arrived
+                    break
+                if not chunk:
+                    break
+                response_body += chunk
         else:
             response_body = None
         raise WebSocketBadStatusException(
